@@ -37,6 +37,14 @@ def run(ctx):
         meta.append({"history": h2})
         ctx.evaluations += 1
         ctx.case(h2)
+    if thorough:
+        from harness import suitetrace
+        doc = suitetrace.record()
+        if doc is not None:
+            ctx.extra["suite_traces"] = {"pytest": doc["pytest_summary"], "write_traces": len(doc["writes"])}
+            for t in doc["writes"]:
+                traces.append(t)
+                meta.append({"history": [{"kind": "repository test-suite (harness.recorder)"}]})
     fails, _ = ctx.validate("Trace_Write", {"traces": traces})
     for tid, l, clause in fails:
         if clause.startswith("C16.Harness"):
